@@ -26,6 +26,7 @@ func unsub(client string, id uint16, f string) Action {
 func pub(client, topic string, q byte, id uint16, payload string) Action {
 	return Action{Kind: "pub", Client: client, Topic: topic, QoS: q, ID: id, Payload: payload}
 }
+
 // flood: QoS 0 traffic of one client on a topic nobody needs, more than its
 // 16 KiB incoming ring holds: whatever the broker kept of that client's earlier
 // packets (filters, will, retained payloads, client id) by reference into the
